@@ -41,6 +41,7 @@ def boot():
         del sys.modules[k]
     import warnings
     warnings.filterwarnings('ignore', category=SyntaxWarning)
+    warnings.filterwarnings('ignore', category=RuntimeWarning)
     with quiet():
         import localcider  # noqa
     f = os.path.realpath(localcider.__file__)
